@@ -543,7 +543,21 @@ class Interp(object):
 
     store_log = None
 
+    flag_terms = None
+
     def note_store(self, st, oid, off, n, ty, t):
+        if isinstance(t, tuple) and t and t[0] in ('eq', 'ne', 'lnot') and n == 1:
+            if self.flag_terms is None:
+                self.flag_terms = set()
+            e = t
+            neg = False
+            while e[0] == 'lnot':
+                e = e[1]
+            if e[0] == 'ne':
+                e = ('eq', e[1], e[2])
+            if e[0] == 'eq':
+                self.flag_terms.add(e)
+                self.flag_terms.add(('eq', e[2], e[1]))
         if self.store_log is not None:
             self.store_log.append((oid, mem.off_key(st, off), n, ty, t))
 
@@ -877,6 +891,16 @@ class Interp(object):
 
     def assume(self, st, cond, truth):
         """Refine st with cond == truth; False if infeasible."""
+        ok = self._assume(st, cond, truth)
+        if ok and cond[0] == 'eq' and getattr(self, 'flag_terms', None) and cond in self.flag_terms:
+            # the comparison itself was stored somewhere as a value (`acking = (count == 0)`): its value is known now
+            try:
+                st.union(cond, ONE if truth else ZERO)
+            except Exception:
+                pass
+        return ok
+
+    def _assume(self, st, cond, truth):
         k = cond[0]
         if k == 'c':
             return (cond[1] != 0) == truth
